@@ -794,6 +794,9 @@ class SQLTranslator(ASTTranslator):
             force_in = True
         else:
             assert not translator.having_conditions
+        limited = translator.limit is not None or translator.offset
+        if limited:  # rows are selected by a limited subquery: the limit must be part of the statement
+            force_in = True
         tableref = expr_monad.tableref
         from_ast = translator.sqlquery.from_ast
         if from_ast[0] != 'FROM':
@@ -822,6 +825,14 @@ class SQLTranslator(ASTTranslator):
             subquery_ast = [ 'SELECT', [ 'ALL' ] + inner_expr, from_ast ]
             if translator.conditions:
                 subquery_ast.append([ 'WHERE' ] + translator.conditions)
+            if limited:
+                if translator.dialect == 'MySQL': throw(NotImplementedError,
+                    'Bulk delete over a query with limit/offset is not supported in MySQL')
+                if translator.order: subquery_ast.append([ 'ORDER_BY' ] + translator.order)
+                limit = translator.limit if translator.limit is not None else -1 if translator.dialect == 'SQLite' else None
+                limit_section = [ 'LIMIT', limit ]
+                if translator.offset: limit_section.append(translator.offset)
+                subquery_ast.append(limit_section)
             delete_where_ast = [ 'WHERE', [ 'IN', outer_expr, subquery_ast ] ]
             sql_ast = [ 'DELETE', None, delete_from_ast, delete_where_ast ]
         return sql_ast
